@@ -185,3 +185,65 @@ def extract_store():
     body = HEADER + "(* dds/store.py : path_segments and its uses *)\n"
     body += f"Definition c_forbidden_segments : list string := {clist(forbidden)}.\n"
     return body
+
+
+@register("ConstConfig")
+def extract_config():
+    tree = parse("dds/store.py")
+    init = find_def(find_def(tree, "LocalFileStore"), "__init__")
+    assigns = [(ast.unparse(n.targets[0]), ast.unparse(n.value)) for n in ast.walk(init) if isinstance(n, ast.Assign) and len(n.targets) == 1]
+    first = assigns[:4]
+    want = [("internal_dir", "os.path.abspath(internal_dir)"), ("data_dir", "os.path.abspath(data_dir)"),
+            ("self._root", "internal_dir"), ("self._data_root", "data_dir")]
+    if first != want:
+        raise Unrecognised(f"LocalFileStore.__init__ starts with {first}")
+    api = parse("dds/_api.py")
+    ss = find_def(api, "set_store")
+    calls = [ast.unparse(n) for n in ast.walk(ss) if isinstance(n, ast.Call) and getattr(n.func, "id", None) == "LocalFileStore"]
+    if calls != ["LocalFileStore(internal_dir, data_dir)"]:
+        raise Unrecognised(f"set_store builds the local store with {calls}")
+    body = HEADER + "(* dds/store.py : LocalFileStore.__init__ ; dds/_api.py : set_store *)\n"
+    body += f"Definition c_dirs_made_absolute : bool := true.\n"
+    return body
+
+
+@register("ConstCodec")
+def extract_codec():
+    tree = parse("dds/codec.py")
+    bdr = find_def(tree, "_build_default_registry")
+    call = only([n for n in ast.walk(bdr) if isinstance(n, ast.Call) and getattr(n.func, "id", None) == "CodecRegistry"], "CodecRegistry(...)")
+    if ast.unparse(call.args[0]) != "[]":
+        raise Unrecognised("default codecs: " + ast.unparse(call.args[0]))
+    names = [ast.unparse(e) for e in call.args[1].elts]
+    want = ["StringLocalFileCodec()", "BytesFileCodec()", "PickleLocalFileCodec()", "pfc"]
+    if names != want:
+        raise Unrecognised(f"default file codecs {names}")
+    # references and handled types of the builtin codecs
+    b = parse("dds/codecs/builtins.py")
+    pd = parse("dds/codecs/pandas.py")
+
+    def ref_types(mod, cls):
+        c = find_def(mod, cls)
+        ref = only([n.args[0].value for n in ast.walk(find_def(c, "ref")) if isinstance(n, ast.Call) and getattr(n.func, "id", None) == "ProtocolRef"], cls + ".ref")
+        ht = find_def(c, "handled_types")
+        ret = only([n for n in ast.walk(ht) if isinstance(n, ast.Return)], cls + ".handled_types")
+        types = []
+        for e in ret.value.elts:
+            src = ast.unparse(e)
+            m = {"STU.from_type(str)": "str", "STU.from_type(bytes)": "bytes", "STU.from_type(bytearray)": "bytearray",
+                 "STU.from_type(type(None))": "NoneType", "SupportedType('object')": "object",
+                 "ST('pandas.DataFrame')": "pandas.DataFrame", "ST('pandas.core.frame.DataFrame')": "pandas.core.frame.DataFrame"}.get(src)
+            if m is None:
+                raise Unrecognised(f"{cls}.handled_types element {src}")
+            types.append(m)
+        return ref, types
+    table = [ref_types(b, "StringLocalFileCodec"), ref_types(b, "BytesFileCodec"), ref_types(b, "PickleLocalFileCodec"), ref_types(pd, "PandasFileCodec")]
+    # the registry methods: override vs first-wins
+    reg = find_def(tree, "CodecRegistry")
+    ac = ast.unparse(find_def(reg, "add_codec"))
+    afc = ast.unparse(find_def(reg, "add_file_codec"))
+    if "if t not in self._handled_types" in ac or "if t not in self._handled_types" not in afc or "if codec.ref() in self._protocols" not in afc:
+        raise Unrecognised("add_codec / add_file_codec shape changed")
+    body = HEADER + "(* dds/codec.py, dds/codecs/builtins.py, dds/codecs/pandas.py *)\n"
+    body += "Definition c_default_file_codecs : list (string * list string) :=\n  [" + "; ".join(f"({cstr(r)}, {clist(t)})" for r, t in table) + "].\n"
+    return body
